@@ -81,6 +81,9 @@ CHECKS = {
  "C23": ("history + reference-model monitor with a monotonic clock: solve/solve_all strings vs the true answer sequence under the real timer thread",
          "Fast generated queries must be complete and never report a timeout; slow searches sized at run time to exceed the limit many times over (answers first then a long silent search; not(...) over a search that succeeds only at its very end) must return a prefix of the true sequence, then the timeout message as last element, never before 1000 ms have elapsed.",
          "only timing directions that are sound on a loaded machine are verdicts; a fast query that really took >= 1000 ms is inconclusive", "DESIGN.md 5/C23"),
+ "C24": ("undefined-behaviour interpreter + sanitizer: the FFI-free API driver is run under Miri (Stacked Borrows; thorough adds Tree Borrows and scheduler-seed variation on the timer cases) and, in thorough, natively under AddressSanitizer",
+         "Generated programs with a cut at every body position, not, nested and/or, re-asking after exhaustion, parsing of valid and mutated text, several queries per process, solve/solve_all under the real timer thread and a 1 ms timer firing during and after searches are interpreted by Miri in 16 (quick) / 160 (thorough) separate processes so that one report cannot mask another; any `Undefined Behavior` diagnostic (aliasing violation, data race, out-of-bounds, use-after-free) is a violation keyed by kind and first frame in /repo/src. The evidence lists API calls interpreted, cuts executed, timer firings observed and every process's exit status.",
+         "Miri observes only the executions it interprets (hundreds of programs per run); leaks are ignored (the solution tree's Rc cycles leak by design)", "DESIGN.md 5/C24"),
 }
 
 PENDING = {}
